@@ -1,34 +1,8 @@
-(* PipeInv2.v -- data invariants of a stream: what storage received is the committed log from the acquisition's base on,
-   the sink is drained whenever it is not running, commits stop before the sink's final read. *)
+(* PipeInv2.v -- preservation of invariant group 2 (storage received the committed log from the base on; drained sink). *)
 From Coq Require Import List Bool Arith NArith Lia.
 From RecordUpdate Require Import RecordSet.
-From Pipe Require Import PipeModel PipeFacts PipeTac PipeInv1.
+From Pipe Require Import PipeModel PipeFacts PipeTac PipeInvDefs.
 Import ListNotations RecordSetNotations.
-
-Definition start_sto_up (c : cstart) : bool :=
-  match c with TStoStarted | TAccepted | TRegEnter | TRegMapped | TRegDone => true | _ => false end.
-
-Record Inv2 (s : stream) : Prop := {
-  j_unreg : sink_reg s = false -> log s = [] /\ sink_cur s = 0 /\ k_pc s = KOff;
-  j_reg : match c_start s with TRegMapped | TRegDone => true | _ => false end = true -> sink_reg s = true;
-  j_koff : k_pc s = KOff -> s_pc s = SOff /\ sink_cur s = 0 /\ stored s = [];
-  j_soff : s_pc s = SOff -> log s = [];
-  j_aftersink : start_pre_src (c_start s) = true -> k_pc s <> KOff;
-  j_stored : stored s = seg (log s) (base s) (length (stored s));
-  j_pos : sto_failed s = false -> sink_cur s + pending (k_pc s) = base s + length (stored s);
-  j_drained : post_read (k_pc s) = true -> sink_cur s = length (log s);
-  j_nocommit : post_main (k_pc s) = true -> accepting s = false \/ src_quiet (s_pc s) = true;
-  j_stopflag : sink_stopping s = true -> src_quiet (s_pc s) = true;
-  j_presink : start_sto_up (c_start s) = true ->
-              sto_st s = HRunning /\ sto_failed s = false /\ stored s = [] /\ base s = length (log s) /\ src_on s = false;
-  j_mid : start_pre_src (c_start s) = true ->
-          sink_stopping s = false /\ sto_st s = HRunning /\ sink_cur s = length (log s) /\ sto_failed s = false /\
-          base s = length (log s) /\ src_on s = false /\
-          (k_pc s = KTest \/ k_pc s = KMainMapping \/ k_pc s = KMainMapped 0);
-  j_main : in_main (k_pc s) = true -> sto_st s = HRunning /\ sto_failed s = false;
-  j_err : in_err (k_pc s) = true -> sto_failed s = true;
-  j_run : sto_st s = HRunning -> sto_failed s = false
-}.
 
 Lemma inv2_init : Inv2 init_stream.
 Proof. constructor; cbn; auto; try discriminate; try congruence; intuition discriminate. Qed.
